@@ -7,6 +7,8 @@ package conc
 
 import (
 	"fmt"
+	"runtime"
+	"strconv"
 	"sort"
 	"strings"
 	"sync"
@@ -42,6 +44,9 @@ func (o Op) String() string {
 type Program struct {
 	Start   string `json:"start"`
 	Threads [][]Op `json:"threads"`
+	// Tag marks a hand-picked program: its rejected histories are identified one by one (program + results), not by
+	// the pair of operation kinds
+	Tag string `json:"tag,omitempty"`
 }
 
 func (p Program) String() string {
@@ -126,6 +131,17 @@ func closure() []string {
 		level = next
 	}
 	return out
+}
+
+func goid() int64 {
+	var buf [64]byte
+	n := runtime.Stack(buf[:], false)
+	f := strings.Fields(strings.TrimPrefix(string(buf[:n]), "goroutine "))
+	if len(f) == 0 {
+		return -1
+	}
+	id, _ := strconv.ParseInt(f[0], 10, 64)
+	return id
 }
 
 // treeTLA renders a projection as the TLA+ function FSCore uses.
@@ -252,6 +268,7 @@ func doAppend(fs hackpadfs.FS, o Op) (obs fsad.Obs) {
 type Opts struct {
 	GateBlobs  bool `json:"gate_blobs"`   // blob operations of file records
 	GateTxnOps bool `json:"gate_txn_ops"` // every Get/Set inside a store transaction
+	GateTxnEnd bool `json:"gate_txn_end"` // the return of every Commit
 }
 
 // blockedAfter: a released thread that has not reached its next scheduling point after this long, while
@@ -262,7 +279,7 @@ const blockedAfter = 25 * time.Millisecond
 // runnable thread; it returns the outcome and the choice points met.
 func Run(p Program, prefix []int, opts Opts) (Outcome, []choice) {
 	inner := mem.NewStoreForVerif()
-	ctl := &kvctl.Ctl{GateBlobs: opts.GateBlobs, GateTxnOps: opts.GateTxnOps}
+	ctl := &kvctl.Ctl{GateBlobs: opts.GateBlobs, GateTxnOps: opts.GateTxnOps, GateTxnEnd: opts.GateTxnEnd}
 	setupFS, err := keyvalue.NewFS(&kvctl.Txn{In: inner, C: ctl, Thread: -1})
 	if err != nil {
 		panic(err)
@@ -275,12 +292,25 @@ func Run(p Program, prefix []int, opts Opts) (Outcome, []choice) {
 	out.Init = treeTLA(tree0)
 
 	n := len(p.Threads)
+	// ONE file system object shared by all goroutines, as a mem.FS is (per-FS state such as the unlink counters of open
+	// handles must be common to them); the scheduling thread is the calling goroutine's
+	var gmu sync.Mutex
+	threadOfGoroutine := map[int64]int{}
+	ctl.ThreadOf = func() int {
+		gmu.Lock()
+		defer gmu.Unlock()
+		if t, ok := threadOfGoroutine[goid()]; ok {
+			return t
+		}
+		return -1
+	}
+	shared, err := keyvalue.NewFS(&kvctl.Txn{In: inner, C: ctl, Thread: kvctl.Dynamic})
+	if err != nil {
+		panic(err)
+	}
 	fss := make([]*keyvalue.FS, n)
 	for i := range fss {
-		fss[i], err = keyvalue.NewFS(&kvctl.Txn{In: inner, C: ctl, Thread: i})
-		if err != nil {
-			panic(err)
-		}
+		fss[i] = shared
 	}
 	s := &sched{atGate: map[int]chan struct{}{}, what: map[int]string{}, arrived: make(chan int, 4*n)}
 	ctl.Gate = func(thread int, what string) {
@@ -299,6 +329,9 @@ func Run(p Program, prefix []int, opts Opts) (Outcome, []choice) {
 	done := make([]bool, n)
 	for i := 0; i < n; i++ {
 		go func(i int) {
+			gmu.Lock()
+			threadOfGoroutine[goid()] = i
+			gmu.Unlock()
 			for _, op := range p.Threads[i] {
 				ctl.Gate(i, "begin "+op.Name) // operations are delimited by an explicit scheduling point
 				s.mu.Lock()
